@@ -1,12 +1,84 @@
 """C01-C04 share one suite for the agent scheduler (harness/schedlib.py, props/schedsuite.py);
-C01-C03 also cover the application-level slot finder (props/nodelistsuite.py)."""
+C01-C03 also cover the application-level slot finder (props/nodelistsuite.py).
+C02 also judges the grant against the request AS SUBMITTED: a description written by the application (current or
+deprecated attribute names) goes through the real TaskDescription.verify() and then to the real placement routine."""
+import rpload
+import schedlib
 from props import schedsuite, nodelistsuite
 PROP = 'C02'
 LEAN_TARGETS = ['RPVerif.Props.C02']
+
+U = schedlib.U
+FORMS = ['current', 'deprecated', 'deprecated_counts', 'deprecated_sizes']
+
+
+def submitted(rp, form, ranks, cpr, gpr, lfs, mem):
+    """the description as an application writes it -> real verify() -> real schedule_task on an idle pilot of 4 nodes
+    (8 cores, 4 GPUs, lfs 100, mem 64 each); returns the slots granted as [cores, gpus (sixteenths), lfs, mem] per rank"""
+    d = {'executable': '/bin/true'}
+    cur = {'ranks': ranks, 'cores_per_rank': cpr, 'gpus_per_rank': gpr / float(U), 'lfs_per_rank': lfs, 'mem_per_rank': mem}
+    dep = {'ranks': 'cpu_processes', 'cores_per_rank': 'cpu_threads', 'gpus_per_rank': 'gpu_processes',
+           'lfs_per_rank': 'lfs_per_process', 'mem_per_rank': 'mem_per_process'}
+    for k, v in cur.items():
+        old = form == 'deprecated' or (form == 'deprecated_counts' and k in ('ranks', 'cores_per_rank')) \
+              or (form == 'deprecated_sizes' and k not in ('ranks', 'cores_per_rank'))
+        d[dep[k] if old else k] = v
+    td = rp.TaskDescription(from_dict=d)
+    td.verify()
+    td = td.as_dict()
+    cfg = {'cpn': 8, 'gpn': 4, 'lfs': 100, 'mem': 64, 'scattered': True}
+    nodes = [{'index': i, 'cores': [0] * 8, 'gpus': [0] * 4, 'lfs': 100, 'mem': 64} for i in range(4)]
+    s = schedlib.make_sched(rp, cfg, nodes)
+    task = schedlib.req_to_task({'uid': 0, 'ranks': 1, 'cpr': 1, 'gpr': 0, 'lfs': 0, 'mem': 0, 'rpn': 0, 'colo': None, 'excl': False,
+                                 'prio': 0, 'env': None, 'app': None})
+    for k in ('ranks', 'cores_per_rank', 'gpus_per_rank', 'lfs_per_rank', 'mem_per_rank'):
+        task['description'][k] = td[k]
+    slots, _ = s.schedule_task(task)
+    if not slots: return None
+    return [[len(sl['cores']), sum(int(round(g['occupation'] * U)) for g in sl['gpus']), sl['lfs'], sl['mem']] for sl in slots]
+
+
+def submitted_part(ctx):
+    rp, rng = rpload.load(), ctx.rng
+    n = 0
+    for _ in range(ctx.n(40, 1500)):
+        ranks, cpr = rng.choice([1, 2, 3, 4, 5]), rng.choice([1, 2, 3, 6])
+        gpr = rng.choice([0, 0, U, 8]); lfs = rng.choice([0, 0, 10]); mem = rng.choice([0, 0, 8])
+        # (requests that fit the idle pilot: 4 nodes of 8 cores, 4 GPUs, lfs 100, mem 64)
+        cap = min(8 // cpr, (4 * U) // gpr if gpr else 99, 100 // lfs if lfs else 99, 64 // mem if mem else 99)
+        if 4 * cap < ranks: continue
+        for form in FORMS:
+            # (the deprecated `gpu_processes` counts whole GPUs)
+            if form in ('deprecated', 'deprecated_sizes') and gpr % U: continue
+            try:
+                got = submitted(rp, form, ranks, cpr, gpr, lfs, mem)
+            except Exception as e:
+                got = 'raised %s' % type(e).__name__
+            n += 1
+            ctx.case({'submitted': [form, ranks, cpr, gpr, lfs, mem]}, nontrivial=form != 'current')
+            want = [[cpr, gpr, lfs, mem]] * ranks
+            if got != want:
+                ctx.fail('submitted:grant-differs-from-the-request-as-written:%s' % form,
+                         'the application asks for %d ranks of %d cores, %d/16 GPU, lfs %d, mem %d (%s attribute names); granted per rank '
+                         '[cores, GPU/16, lfs, mem]: %s' % (ranks, cpr, gpr, lfs, mem, form, got),
+                         {'script': None, 'submitted': {'form': form, 'req': [ranks, cpr, gpr, lfs, mem]}})
+    ctx.obligation('requests as the application writes them (current and deprecated attribute names) through the real verify() and the '
+                   'real placement routine on an idle pilot: grant == request (%d descriptions)' % n, 'tie', True, '')
+
+
 def run(ctx):
     schedsuite.run(ctx, 'C02')
     nodelistsuite.run(ctx, 'C02')
+    submitted_part(ctx)
+
+
 def replay(ctx, data):
+    if 'submitted' in data['input']:
+        rp = rpload.load()
+        i = data['input']['submitted']
+        got = submitted(rp, i['form'], *i['req'])
+        print(got)
+        return got == [i['req'][1:]] * i['req'][0]
     if 'nodelist' in data['input']:
         return nodelistsuite.replay(ctx, data, 'C02')
     return schedsuite.replay(ctx, data, 'C02')
